@@ -510,9 +510,20 @@ def main():
              f"def rowSeparatorDefault : List Nat := {codes(cli['row_separator_default'])}\n",
              "end Jawk.Generated\n"]
     ch3 = write_if_changed(os.path.join(OUT, "Presets.lean"), "\n".join(lines))
+    # the same table for the Rust harness (generator of aliases / arities)
+    def rust_str(x):
+        return '"' + x.replace('\\', '\\\\').replace('"', '\\"') + '"'
+    rl = ["// GENERATED by extract/extract_tables.py from /repo/src - do not edit.",
+          "pub const FUNCTION_TABLE: &[(&str, &[&str], usize, Option<usize>)] = &["]
+    for f in funcs:
+        al = ", ".join(rust_str(a) for a in f["aliases"])
+        mx = "None" if f["max"] is None else f"Some({f['max']})"
+        rl.append(f"    ({rust_str(f['name'])}, &[{al}], {f['min']}, {mx}),")
+    rl.append("];")
+    ch4 = write_if_changed(os.path.join(OUT, "..", "..", "..", "harness", "src", "gen_table.rs"), "\n".join(rl) + "\n")
     summary = {"functions": len(funcs), "names": len(allnames),
                "examples": sum(len(f["examples"]) for f in funcs), "examples_skipped": skipped,
-               "changed": [n for n, c in (("FunctionTable", ch1), ("DocExamples", ch2), ("Presets", ch3)) if c]}
+               "changed": [n for n, c in (("FunctionTable", ch1), ("DocExamples", ch2), ("Presets", ch3), ("harness/gen_table.rs", ch4)) if c]}
     print("EXTRACT-OK " + json.dumps(summary))
 
 
